@@ -1,2 +1,4 @@
 pub mod buztable;
 pub mod chunker;
+pub mod codec;
+pub mod model;
